@@ -699,7 +699,7 @@ def c09_eval(ctx):
 
 def check_C09(rep, tier, seed, replay):
     ctx = Ctx(rep, tier, seed)
-    proof_ok = core.prove(rep, "C09", ["C09_header_valid", "C09_header_check"])
+    proof_ok = core.prove(rep, "C09", ["C09_header_valid", "C09_header_check", "C09_trailer_checked_on_stored_streams_partial"])
     if replay:
         load_replay(ctx, replay)
     else:
